@@ -25,6 +25,10 @@
 extern "C" {
 extern int verif_frameA_has[4], verif_frameA_to[4], verif_frameB_has[4], verif_frameB_to[4];
 }
+#ifndef VERIF_TYPETEXT_DEFINED
+#define VERIF_TYPETEXT_DEFINED
+struct verif_typetext { int fmt; }; /* the text of a type: 50 = diagnostic format (type_t::str), 51 = declaration syntax (type_t::declaration) */
+#endif
 namespace UTAP {
 using Constants::kind_t;
 using Constants::synchronisation_t;
@@ -56,6 +60,7 @@ public:
         if (k == Constants::CONSTANT) return (id & 1) != 0;
         if (k == Constants::URGENT) return ((id >> 20) & 1) != 0;
         if (k == Constants::COMMITTED) return ((id >> 21) & 1) != 0;
+        if (k == Constants::RANGE) return ((id >> 22) & 1) != 0; /* ghost: the type is a range over its base kind */
         return ((id & 0xFFFFF) >> 1) == (int)k;
     }
     type_t create_prefix(kind_t k, position_t = position_t()) const
@@ -99,6 +104,11 @@ public:
     bool is_array() const { return id >= 3000 && id < 4000; }
 #endif
     type_t get_sub() const { return type_t(id + 10000); }
+#ifdef VERIF_VALUE_LOG
+    /* C03: the two textual forms of a type (struct verif_typetext is defined by the TU's stream stub) */
+    ::verif_typetext str() const;
+    ::verif_typetext declaration() const;
+#endif
 };
 #ifdef VERIF_FRAME_ARENA
 typedef int verif_name; /* identity of an identifier spelling */
@@ -344,6 +354,7 @@ public:
     std::ostream& print_bound_type(std::ostream& os, expression_t e) const;
     std::ostream& print_query_clauses(std::ostream& os, bool old) const;
     std::ostream& print_constant_clause(std::ostream& os, bool old) const; /* C03 K3: the CONSTANT clause of print */
+    std::ostream& print_quantifier_clauses(std::ostream& os, bool old) const; /* C03 K4: FORALL / EXISTS / SUM */
     const char* get_string_value() const { return "<string>"; }
 #endif
     /* contracts of the recursive callees on a child (rule L12), defined in the TU */
